@@ -11,7 +11,7 @@ use serde_json::{json, Value};
 
 use super::{common::set_clock, recon::scratch_dir};
 use crate::{
-    explore::{bfs, Outcome as BfsOutcome},
+    explore::{bfs_nd, Outcome as BfsOutcome},
     refmodel::{ModelReplica, PutOutcome},
     report::Report,
     sut::{block_on, handle_dump, Outcome, Sut, PEER},
@@ -24,7 +24,7 @@ pub fn def() -> PropDef {
     PropDef {
         id: "C07",
         level: "model_checking",
-        rule: "explicit-state search over {import read-only Ni, import write Ni, local insert Ni, local delete Ni, remote insert Ni (validly signed), reopen the store, list documents, list authors} on a file-backed Store, and over the same events plus {open Ni, close Ni, export secret Ni} through the store actor (SyncHandle; reopen = shutdown, reopen the file, respawn), for two documents; model: per document the maximum capability ever imported; after every event list_namespaces kinds, export_secret_key, the outcome of every write attempt and both documents' entries are compared with the model; canonical state = (listed kinds, entries, open handles, exportability); non-trivial = histories in which a read-only import or a reopen follows a write import",
+        rule: "explicit-state search over {import read-only Ni, import write Ni, local insert Ni, local delete Ni, remote insert Ni (validly signed), reopen the store, list documents, list authors, take a handle with open_replica and keep the document marked open, close_replica} on a file-backed Store (while a document is marked open, write attempts go through one more handle from open_replica), and over the same events plus {open Ni, close Ni, export secret Ni} through the store actor (SyncHandle; reopen = shutdown, reopen the file, respawn), for two documents; model: per document the maximum capability ever imported; after every event list_namespaces kinds, export_secret_key, the outcome of every write attempt and both documents' entries are compared with the model; canonical state = (listed kinds, entries, open handles, exportability); non-trivial = histories in which a read-only import or a reopen follows a write import",
         assumptions: &["two documents, one author, one local key and one remote key per document"],
         bound: |t| match t {
             Tier::Quick => json!({"direct": "depth <= 7 (11 events)", "actor": "depth <= 6 (17 events)"}),
@@ -176,8 +176,29 @@ fn exec_direct(hist: &[Ev]) -> Option<(Bad, String, String)> {
             }
             Ev::Insert(i) | Ev::Delete(i) | Ev::Remote(i) => {
                 let ns = ns_id(i);
+                // while the document is held open (an earlier `Open` without `Close`), the write
+                // goes through one more handle from `open_replica` and the store's open mark stays
+                let held = m[i as usize].handles > 0;
                 let got = match ev {
+                    Ev::Remote(_) if held => match sut.store.open_replica(&ns) {
+                        Err(e) => Outcome::StoreError(format!("open: {e}")),
+                        Ok(mut r) => Outcome::from(block_on(r.insert_remote_entry(remote_entry(i), crate::sut::PEER, iroh_docs::ContentStatus::Missing))),
+                    },
                     Ev::Remote(_) => sut.remote(ns, remote_entry(i)),
+                    _ if held => {
+                        set_clock(LOCAL_TS);
+                        let r = match sut.store.open_replica(&ns) {
+                            Err(e) => Outcome::StoreError(format!("open: {e}")),
+                            Ok(mut r) => Outcome::from(if matches!(ev, Ev::Delete(_)) {
+                                block_on(r.delete_prefix(b"k", &author(0)))
+                            } else {
+                                let (h, l) = Val::X.hash_len();
+                                block_on(r.insert(b"k", &author(0), h, l))
+                            }),
+                        };
+                        set_clock(NOW);
+                        r
+                    }
                     _ => {
                         set_clock(LOCAL_TS);
                         let r = sut.local_insert(
@@ -223,6 +244,27 @@ fn exec_direct(hist: &[Ev]) -> Option<(Bad, String, String)> {
                 drop(sut);
                 sut = Sut::persistent(&path).expect("reopen");
                 observed = "Reopen".into();
+                for d in m.iter_mut() {
+                    d.handles = 0;
+                }
+            }
+            // direct mode: take a handle with `open_replica` and let it go without
+            // `close_replica` — the store keeps the document marked open until `Close`
+            Ev::Open(i) => {
+                let res = sut.store.open_replica(&ns_id(i)).map(|_| ());
+                let d = &mut m[i as usize];
+                observed = format!("{ev:?}->{}", res.is_ok());
+                if res.is_ok() != d.cap.is_some() {
+                    step_bad.push(("open_iff_document_exists", json!({}), format!("{ev:?}: {res:?}")));
+                }
+                if d.cap.is_some() {
+                    d.handles = 1;
+                }
+            }
+            Ev::Close(i) => {
+                sut.store.close_replica(ns_id(i));
+                m[i as usize].handles = 0;
+                observed = format!("{ev:?}");
             }
             Ev::List => {
                 let got = listed(&mut sut.store);
@@ -272,10 +314,33 @@ fn exec_direct(hist: &[Ev]) -> Option<(Bad, String, String)> {
             bad.extend(step_bad);
         }
     }
+    // what a handle obtained now would be allowed to do (the capability the store hands to an
+    // opener) — compared with the model and part of the canonical state; asked after everything
+    // else, a document that is not held open is closed again
+    let mut handle_caps = String::new();
+    for i in 0..2u8 {
+        let got = match sut.store.open_replica(&ns_id(i)) {
+            Ok(r) => Some(if r.capability().secret_key().is_ok() { Cap::Write } else { Cap::Read }),
+            Err(_) => None,
+        };
+        if m[i as usize].handles == 0 {
+            sut.store.close_replica(ns_id(i));
+        }
+        if got != m[i as usize].cap {
+            bad.push((
+                "handle_has_the_greatest_capability_imported",
+                json!({"held_open": m[i as usize].handles > 0}),
+                format!("after {:?}: a handle for document {i} comes with {got:?}, the greatest capability imported is {:?} (document held open: {})", hist.last(), m[i as usize].cap, m[i as usize].handles > 0),
+            ));
+        }
+        handle_caps.push_str(&format!("{got:?},"));
+    }
     // the kind of transaction the store holds is hidden state that later operations may depend
     // on, so it is part of the canonical state
     let key = format!(
-        "{txn_kind}|{:?}|{}|{}",
+        "{txn_kind}|{handle_caps}|{}{}|{:?}|{}|{}",
+        m[0].handles,
+        m[1].handles,
         listed(&mut sut.store),
         show_entries(&sut.dump(ns_id(0))),
         show_entries(&sut.dump(ns_id(1)))
@@ -498,8 +563,9 @@ fn events(actor: bool) -> Vec<Ev> {
     let mut v = vec![];
     for i in 0..2u8 {
         v.extend([Ev::ImportRead(i), Ev::ImportWrite(i), Ev::Insert(i), Ev::Delete(i), Ev::Remote(i)]);
+        v.extend([Ev::Open(i), Ev::Close(i)]);
         if actor {
-            v.extend([Ev::Open(i), Ev::Close(i), Ev::Export(i)]);
+            v.push(Ev::Export(i));
         }
     }
     v.push(Ev::Reopen);
@@ -520,7 +586,7 @@ fn run(ctx: &Ctx, report: &mut Report) {
         let evs = events(actor);
         let mut evals = 0u64;
         let mut nt = 0u64;
-        let stats = bfs(ctx, report, &evs, depth, 1, |h, report, ordinal| {
+        let stats = bfs_nd(ctx, report, &evs, depth, 1, if ctx.quick() { 2 } else { 3 }, |h, report, ordinal| {
             evals += 1;
             let nontrivial = h.iter().enumerate().any(|(i, e)| {
                 matches!(e, Ev::ImportRead(_) | Ev::Reopen)
